@@ -131,14 +131,14 @@ func cmdDev(args []string) {
 // ---------------------------------------------------------------------------
 
 type evidence struct {
-	PropertyID string                 `json:"property_id"`
-	Tier       string                 `json:"tier"`
-	Seed       int64                  `json:"seed"`
-	Level      string                 `json:"level"`
-	Coverage   map[string]interface{} `json:"coverage"`
-	Assumptions []string              `json:"assumptions"`
-	WallS      float64                `json:"wall_s"`
-	Violations int                    `json:"violations"`
+	PropertyID  string                 `json:"property_id"`
+	Tier        string                 `json:"tier"`
+	Seed        int64                  `json:"seed"`
+	Level       string                 `json:"level"`
+	Coverage    map[string]interface{} `json:"coverage"`
+	Assumptions []string               `json:"assumptions"`
+	WallS       float64                `json:"wall_s"`
+	Violations  int                    `json:"violations"`
 }
 
 func writeJSON(path string, v interface{}) error {
